@@ -256,8 +256,15 @@ def dispatch(engine, st, callee, args, dest_ty):
             cands = [f for f in engine.prog.by_last.get(method, []) if f.name.endswith(f'{tb}::{method}') and '{closure' not in f.name]
             if len(cands) == 1:
                 return engine.exec_fn(st, cands[0], args)
+        if tb == 'PartialEq' and method == 'ne':
+            eqs = engine.prog.find_method(tyb, 'eq', trait='PartialEq', is_ref=ty.strip().startswith('&'))
+            if len(eqs) == 1:
+                r = engine.exec_fn(st, eqs[0], args)
+                return BV(zs(z3.Not(r.t)))
         raise Inconclusive(f'unbound trait call {callee}')
     name = strip_generics(callee)
+    if name in ('must_use', 'std::hint::must_use', 'core::hint::must_use', 'std::convert::identity', 'core::convert::identity'):
+        return args[0]
     r = std_path(engine, st, name, args, dest_ty)
     if r is not NotImplemented:
         return r
@@ -452,6 +459,22 @@ def std_trait(engine, st, ty, tyb, tb, method, args, dest_ty, trait=None):
     if tb == 'FromIterator' and method == 'from_iter':
         it = iterator_method(engine, st, 'into_iter', [args[0]], '')
         return VecV(list(it.items))
+    if tyb == 'Option' and tb == 'PartialEq' and method in ('eq', 'ne'):
+        def veq(a, b):
+            if isinstance(a, EnumV) and isinstance(b, EnumV):
+                conds = [a.discr == b.discr]
+                for k in set(a.payload) & set(b.payload):
+                    inner = [veq(x, y) for x, y in zip(a.payload[k], b.payload[k])]
+                    if inner:
+                        conds.append(z3.Implies(a.discr == k, z3.And(*inner)))
+                return z3.And(*conds)
+            if isinstance(a, (IV, BV)) and isinstance(b, (IV, BV)):
+                return a.t == b.t
+            if isinstance(a, FV) and isinstance(b, FV):
+                return z3.And(a.m == b.m, z3.Or(a.m, a.v == b.v))
+            raise Inconclusive(f'structural equality of {a!r} and {b!r}')
+        t = zs(veq(deref_all(args[0]), deref_all(args[1])))
+        return BV(t if method == 'eq' else zs(z3.Not(t)))
     if tyb == 'Ordering' and tb == 'PartialEq' and method in ('eq', 'ne'):
         a, b = deref_all(args[0]), deref_all(args[1])
         t = a.discr == b.discr
@@ -629,6 +652,14 @@ def iterator_method(engine, st, method, args, dest_ty):
             return mk_option(False, ty=dest_ty)
         x = it.items.pop(0)
         return mk_option(True, x, ty=dest_ty)
+    if method == 'sum' and dest_ty and base_type(dest_ty) not in ('f64', 'usize', 'i32', 'i64', 'u64', 'u32', 'isize', ''):
+        # a crate type: its own `impl Sum` from the dump (of this crate or of a sibling crate)
+        tyb = base_type(dest_ty)
+        for e in [engine] + [x for x in getattr(engine, 'siblings', {}).values() if x is not engine]:
+            fns = e.prog.find_method(tyb, 'sum', trait='Sum')
+            if len(fns) == 1:
+                return e.exec_fn(st, fns[0], [it])
+        raise Inconclusive(f'Sum impl of {dest_ty} not found')
     if method == 'sum':
         acc = None
         for x in it.items:
@@ -692,6 +723,10 @@ def std_path(engine, st, name, args, dest_ty):
             return BV(False)
         if last == 'is_finite':
             return BV(True)
+        if last == 'is_sign_negative':
+            # exact-int doubles: the sign bit is set iff the value is below zero (-0.0 is not in the domain: stated)
+            x = deref_all(a)
+            return BV(zs(z3.And(z3.Not(x.m), x.v < 0)))
         raise Inconclusive(f'f64::{last} is outside the exact-int back end')
     if '<impl usize>' in name or '<impl i32>' in name or '<impl u64>' in name:
         if last in ('max', 'min'):
